@@ -429,7 +429,7 @@ func vValidKind(doc []byte, kind string) bool {
 }
 
 // ---- concurrency (C17): natively the shared values really are shared ----
-const vC17DocText = `{"swagger":"2.0","info":{"title":"t","version":"1"},"paths":{},"definitions":{"A":{"description":"a","properties":{"x":{"type":"string","x-e":1}}}}}`
+const vC17DocText = `{"swagger":"2.0","info":{"title":"t","version":"1"},"paths":{},"definitions":{"A":{"description":"a","properties":{"x":{"type":"string","x-e":1,"const":1}}}}}`
 
 var (
 	vSharedOnce  sync.Once
